@@ -9,6 +9,7 @@ import Proofs.TsigFlip
 import Proofs.TsigName
 import Proofs.TsigCodec
 import Proofs.TsigRoundTrip
+import Proofs.TsigCompress
 /-!
 # C14 — TSIG MACs follow RFC 8945; genuine messages verify, altered ones never do
 
@@ -149,6 +150,38 @@ theorem sign_then_read (H : Hmac) (strict : Bool) (key : Key) (body o : Bytes) (
 theorem sign_then_read_uncompressed (pre : Bytes) (n : Name) (hw : WfName n) (ha : isAbs n = true) :
     OwnerEncodes pre (toWire n) n ∧ nameEq n n = true :=
   ⟨ownerEncodes_plain pre n hw ha, nameEq_refl n⟩
+
+/-- the **compressed** owner name the real renderer writes is such an encoding too.  `Message.to_wire` emits the TSIG
+RR through `RRset.to_wire` / `Name.to_wire(file, compress)` with the compression table built while the body was
+rendered; C01 models that as `toWireC` and proves (`toWireC_sound`) that a table every entry of which decodes in the
+buffer to its key up to case stays so.  For any such table — whatever it holds, whichever suffix of the key name it
+matches, at whatever offset — what `toWireC` appends for the key name is skipped as a whole by the section walk and
+decodes, whatever follows, to a name equal to the key's: the hypothesis `OwnerEncodes` of `sign_then_read` and its
+`nameEq` side condition hold for the renderer's own output, not only for the plain encoding. -/
+theorem compressed_owner_encodes (pre : Bytes) (tbl : CTable) (n : Name) (hw : WfName n) (ha : isAbs n = true)
+    (hs : TableSound C01.lowEq pre tbl) :
+    ∃ o tbl' m, toWireC pre tbl n none = .ok (pre ++ o, tbl') ∧ OwnerEncodes pre o m ∧ nameEq n m = true :=
+  ownerEncodes_compressed pre tbl n hw ha hs
+
+/-- **sign, render with compression, read.**  `sign_then_read` with the owner name written by the renderer's
+compressing name writer against any sound table: the reader accepts, reports the TSIG written and the body signed,
+and hands on the signer's context.  (`hrest` collects the remaining hypotheses of `sign_then_read`, which do not
+depend on how the owner is encoded.) -/
+theorem sign_then_read_compressed (H : Hmac) (strict : Bool) (key : Key) (body : Bytes) (tbl : CTable) (rd : Rdata)
+    (now vnow : Nat) (rm : Bytes) (ctx : Option Ctx) (multi : Bool)
+    (hw : WfName key.name) (ha : isAbs key.name = true)
+    (hs : TableSound C01.lowEq (setArcount body (rd16 body 10 + 1)) tbl)
+    (hrest : ∀ o owner, OwnerEncodes (setArcount body (rd16 body 10 + 1)) o owner → nameEq key.name owner = true →
+      SignedOk H key body o owner rd now vnow) :
+    ∃ o tbl' owner wire rd' ctx' c,
+      toWireC (setArcount body (rd16 body 10 + 1)) tbl key.name none = .ok (setArcount body (rd16 body 10 + 1) ++ o, tbl')
+      ∧ signMessage H algTable body o key rd now rm ctx multi = .ok (wire, rd', ctx')
+      ∧ wire = appendTsig body o rd' ∧ newWire wire body.length = body ∧ nameEq key.name owner = true
+      ∧ read H algTable strict wire (.key key) vnow rm ctx multi = .ok ⟨some ⟨owner, rd', some (c, rd'.mac)⟩, ctx'⟩ := by
+  obtain ⟨o, tbl', owner, htc, henc, hne⟩ := ownerEncodes_compressed _ tbl key.name hw ha hs
+  obtain ⟨wire, rd', ctx', c, h1, h2, _, h4, h5⟩ :=
+    sign_then_read_core H strict key body o owner rd now vnow rm ctx multi (hrest o owner henc hne)
+  exact ⟨o, tbl', owner, wire, rd', ctx', c, htc, h1, h2, h4, hne, h5⟩
 
 /-- "… multi-message sequences", "any subset of intermediate messages unsigned": **a whole exchange**.  The sender
 signs the envelopes marked `signed` with `to_wire(multi=True, tsig_ctx=…)` and digests the unsigned ones whole into
@@ -683,6 +716,26 @@ example : ∀ e ∈ [SEnv.signed exBody (toWire exKey.name) exKey.name exRd 1000
   · exact hb
   · exact hb
   · exact exSignedOk 1001 1301 (by decide) (by decide)
+
+/-- `compressed_owner_encodes` / `sign_then_read_compressed` are not vacuous: in the example body (ARCOUNT raised to
+1) the question name `a.` stands at offset 12; the table entry (`a.` ↦ 12) is sound there, and the key name `k.a.`
+is then written as the label `k` and a pointer to 12 -/
+example :
+    let pre := setArcount exBody 1
+    TableSound C01.lowEq pre [([[97], []], 12)]
+      ∧ (match toWireC pre [([[97], []], 12)] [[107], [97], []] none with
+          | .ok r => some r
+          | .error _ => none)
+          = some (pre ++ [1, 107, 192, 12], [([[97], []], 12), ([[107], [97], []], 19)])
+      ∧ WfName [[107], [97], []] ∧ isAbs [[107], [97], []] = true := by
+  intro pre
+  refine ⟨?_, by decide +kernel, by refine ⟨?_, ?_, ?_⟩ <;> decide, by decide⟩
+  intro p hp
+  simp only [List.mem_cons, List.not_mem_nil, or_false] at hp
+  subst hp
+  refine ⟨by decide, [[97]], 15, ?_, rfl⟩
+  have hroot : Dec pre 14 12 [] 15 := Dec.root 14 12 (by decide)
+  exact Dec.label 12 12 1 [] 15 (by decide) (by decide) (by decide) (by decide) hroot
 
 /-- two request MACs of different length and of equal length (hypothesis of `request_mac_binding`) -/
 example : ([] : Bytes) ≠ [0] ∧ ([1, 2] : Bytes) ≠ [1, 3] := by decide
